@@ -149,3 +149,39 @@ def sqlite_semantic_triggers(t, flags, prob):
     if _has_null_left(t):
         keys.append("null-literal-on-the-left")
     return keys
+
+
+def django_semantic_triggers(t, flags, prob):
+    keys = []
+    if _has_null_left(t):
+        keys.append("null-literal-on-the-left")
+    for n in T.walk(t):
+        # Django's Lookup.process_rhs only parenthesises a right-hand lookup whose SQL does
+        # not already start with "(": a LIKE lookup on a Concat / arithmetic subject does
+        if n[0] == "cmp" and n[1] in ("eq", "ne"):
+            r = n[3]
+            if r[0] == "call" and r[1] in ("contains", "startswith", "endswith") and \
+                    r[2][0][0] in ("bin",) + (("call",) if r[2][0][0] == "call" and r[2][0][1] == "concat" else ()):
+                keys.append("django-rhs-lookup-not-parenthesised")
+    return keys
+
+
+def sqla_semantic_triggers(t, flags, prob):
+    keys = []
+    if "like-literal-pattern-wildcard" in flags or "like-nonliteral-pattern-wildcard" in flags:
+        keys.append("sqla-like-wildcards-not-escaped")
+    if "int-div-inexact" in flags:
+        keys.append("sqla-div-is-true-division")
+    for n in T.walk(t):
+        if n[0] == "call" and n[1] in ("date", "time"):
+            keys.append("sqla-date-time-cast-on-sqlite")
+    return keys
+
+
+def sqla_case_triggers(variant_text):
+    import re
+    keys = []
+    if re.search(r"\b(T[Rr][Uu][Ee]|t[Rr][Uu][Ee]|tr[Uu][Ee]|tru[E])\b", variant_text) and \
+            re.search(r"(?i)\btrue\b", variant_text) and not re.search(r"\btrue\b", variant_text):
+        keys.append("sqla-boolean-literal-case")
+    return keys
